@@ -85,6 +85,10 @@ RULES = [
 ]
 
 VERIFYIDS = {"kind": "rule", "rule": "VERIFYMAP"}
+OFFS = {"kind": "sized_by", "fn": "vibrato::dictionary::unknown::UnkHandler::from_reader",
+        "local": "offsets", "count": "num_categories", "plus": 1,
+        "sink": {"adt": "UnkHandler", "field": "offsets"}}
+CATE_OFFS = {"kind": "all", "of": [CATE, OFFS]}
 UNKLEN = {"kind": "len_le", "fn": "vibrato::dictionary::unknown::UnkHandler::from_reader",
           "local": "entries", "le": 65536, "sink": {"adt": "UnkHandler", "field": "entries"}}
 LATTICE = {"kind": "rule", "rule": "LATTICE"}
@@ -111,7 +115,7 @@ TOK_RULES = [
  ("gen_unk_words", r"assert_failed", "debug_assert_ne!(groupable, 0): compute_groupable fills 1 and only increments", None),
  ("gen_unk_words", r"Sub\(groupable", "groupable >= 1 (filled with 1, only incremented)", None),
  ("gen_unk_words", r"Add\(arg3,", "start + run/prefix length <= sentence length <= isize::MAX (run lengths never cross the end of the sentence)", None),
- ("scan_entries", r"index\(arg1\.offsets", "base_id < number of categories: both the CharInfo table and offsets (num_categories + 1 elements) are built from the same CharProperty in SystemDictionaryBuilder::build, and a category id is bounded below 18 before it is packed into a CharInfo (a 19th category would spill into the base-id bits)", CATE),
+ ("scan_entries", r"index\(arg1\.offsets", "base_id < number of categories: both the CharInfo table and offsets (num_categories + 1 elements: one per category of the CharProperty plus the end) are built from the same CharProperty in SystemDictionaryBuilder::build, and a category id is bounded below 18 before it is packed into a CharInfo (a 19th category would spill into the base-id bits)", CATE_OFFS),
  ("scan_entries", r"Add\(from_u32\(base_id", "category id + 1 <= 18", None),
  ("scan_entries", r"index\(arg1\.entries,next", "loop over offsets[c]..offsets[c+1], prefix sums of the per-category lists, last = entries.len()", None),
  ("scan_entries", r"cast\|usize->u16", "word_id < entries.len() <= 65536", UNKLEN),
@@ -154,7 +158,7 @@ TOK_RULES = [
 # non-empty surface and the tokens concatenate to the sentence.
 TRAIN_RULES = [
  ("compatible_unk_index", r"Sub\(arg4,arg3\)", "end_char - start_char with end = start + surface length (caller build_lattice)", None),
- ("compatible_unk_index", r"index\(arg1\.offsets", "base_id < number of categories (same tables as scan_entries; category ids bounded below 18)", CATE),
+ ("compatible_unk_index", r"index\(arg1\.offsets", "base_id < number of categories (same tables as scan_entries; category ids bounded below 18)", CATE_OFFS),
  ("compatible_unk_index", r"Add\(from_u32\(base_id", "category id + 1 <= 18", None),
  ("compatible_unk_index", r"index\(arg1\.entries,next", "loop over offsets[c]..offsets[c+1] <= entries.len()", None),
  ("compatible_unk_index", r"unwrap\(try_from\(next", "word_id < entries.len() <= 65536 fits u32", UNKLEN),
